@@ -5,10 +5,12 @@ from mirlib import cond_of_switch, const_int, find_calls, loc, switches, trace
 from props.c19 import always_hits
 from props.rt import desc, ret_desc
 
+ENGINE = 'mirfacts+genscan'
 EXPLANATION = ('Thin clause on type-checked MIR: (a) no detected conflict can be dropped: in Graph::new the Err result of get_state_type always pushes GraphError::Disambiguation with that payload into graph.errors, '
                'the scan runs over dfa_lookup, which is built from get_states (closure of the universal start state under all 256 bytes and end of input), and generate turns every such error '
                'into compile_error diagnostics before the gate; (b) get_state_type returns Err exactly on the edge where more than one leaf remains after filtering the state\'s matches by equality with the '
-               'maximum priority, and otherwise accepts the leaf with that maximum. Decides that detected conflicts cannot be lost or silently resolved; NOT the "iff" with language intersection.')
+               'maximum priority, and otherwise accepts the leaf with that maximum. Decides that detected conflicts cannot be lost or silently resolved; NOT the "iff" with language intersection.'
+               ' Since the E5 engine (G20, kind reference-tie): in every accepted corpus definition no reachable match state of the reference DFA has two leaves at the top priority, and the graph holds the top-priority leaf.')
 
 
 def _len_test(fn, sb, payload):
